@@ -71,7 +71,9 @@ func (p *fakePlugin) GetInfo() *pluginregistry.ModelPluginInfo {
 	}
 	return &pluginregistry.ModelPluginInfo{Info: adminapi.ModelInfo{Name: modelName, Version: modelVersion}, ReadWritePaths: rw}
 }
-func (p *fakePlugin) Capabilities(ctx context.Context) *pb.CapabilityResponse { return &pb.CapabilityResponse{} }
+func (p *fakePlugin) Capabilities(ctx context.Context) *pb.CapabilityResponse {
+	return &pb.CapabilityResponse{}
+}
 func (p *fakePlugin) Validate(ctx context.Context, jsonData []byte) error {
 	p.mu.Lock()
 	defer p.mu.Unlock()
@@ -93,7 +95,9 @@ func (fakeRegistry) Stop()  {}
 func (r fakeRegistry) GetPlugin(model configv2.TargetType, version configv2.TargetVersion) (pluginregistry.ModelPlugin, bool) {
 	return r.p, string(model) == modelName && string(version) == modelVersion
 }
-func (r fakeRegistry) GetPlugins() []pluginregistry.ModelPlugin { return []pluginregistry.ModelPlugin{r.p} }
+func (r fakeRegistry) GetPlugins() []pluginregistry.ModelPlugin {
+	return []pluginregistry.ModelPlugin{r.p}
+}
 func (fakeRegistry) NewClientFn(func(endpoint string) (adminapi.ModelPluginServiceClient, error)) {}
 
 type env struct {
